@@ -9,6 +9,7 @@ def explore(run, lean):
     hsm_corr.explore_fallthrough(run, 300 if quick else 6000)
     hsm_corr.explore_super_none(run, 200 if quick else 4000,
                                 strict=bool(((lean.get("translator") or {}).get("values") or {}).get("cfg.superGuard")))
+    hsm_corr.explore_guard_none(run, 120 if quick else 2500)
     # charts assembled from template state functions whose registered callback returns no status
     run.factory_key = "C24"
     factory_corr.explore(run, 80 if quick else 2000, none_rate=0.8)
@@ -20,6 +21,8 @@ def explore(run, lean):
                          "(parent search included): every op ends normally or with HsmTopologyException within 3000 handler calls")
     ROUND6_RULE = '; template charts whose registered callback returns no status'
     run.extra["rule"] += ROUND6_RULE
+    ROUND8_RULE = '; a guarded state that declines an event and gives no status to the EMPTY re-query (round 9); signal names of odd shapes (spaces, dots, keywords, other scripts) on the failing initial transitions (round 8)'
+    run.extra["rule"] = run.extra.get("rule", "") + ROUND8_RULE
 
 
 def replay(case):
